@@ -196,14 +196,30 @@ def shapes():
     def _(rnd):
         return _struct("Aa", ["0 [+1]  UInt  a"]) + _struct("Bb", ["0 [+1]  Aa  a"]) + _struct("Emboss", ["0 [+1]  UInt  e"]) + _struct("Test", ["0 [+1]  UInt  t"]) + _struct("Deep", ["0 [+1]  UInt  d"]) + _struct("Outer", ["0 [+1]  UInt  o"])
 
+    # ---- not names, but constructs at the edge of what the back end can express in C++ ----------
+    # (rejected by the front end where they cannot be; an accepted one must compile and keep its value)
+    @shape("wide-mixed-sign-comparison")
+    def _(rnd):
+        op = rnd.choice(["<", ">", "<=", ">=", "==", "!="])
+        return _struct("Foo", ["0 [+8]  UInt  big", "8 [+8]  Int  delta", "if big %s delta:" % op, "  16 [+1]  UInt  x", "let bb = big %s delta" % op])
+
+    @shape("integer-type-boundaries")
+    def _(rnd):
+        ks = rnd.sample([2**31 - 1, 2**31, 2**32 - 1, 2**32, 2**32 + 1, 2**63 - 1, 2**63, 2**64 - 1, -(2**31), -(2**31) - 1, -(2**63), 2**16, 2**8], 5)
+        lines = ["0 [+4]  UInt  count", "4 [+4]  Int  signed_count", "8 [+2]  UInt  small"]
+        for i, k_ in enumerate(ks):
+            lines.append("let kc%d = %d" % (i, k_))
+        lines += ["let one_past_count = count + 1", "let below_signed = signed_count - 1", "let product = small * small", "let shifted = small * 65536", "let wide_sum = count + count"]
+        return _struct("Foo", lines)
+
     return S
 
 
-def build(rnd, avoid=()):
-    """-> (shape name, module text)."""
+def build(rnd, avoid=(), index=None):
+    """-> (shape name, module text).  index selects the shape round-robin instead of at random."""
     S = shapes()
     names = sorted(n for n in S if n not in avoid)
-    name = rnd.choice(names)
+    name = rnd.choice(names) if index is None else names[index % len(names)]
     lines = S[name](rnd)
     ns = rnd.choice(CPP_NAMESPACES)
     head = ['[$default byte_order: "%s"]' % rnd.choice(["LittleEndian", "BigEndian"])]
